@@ -392,6 +392,14 @@ class OnnxFunction(Op, Generic[_P, _R]):
 
         # Duplicate the graph to create the model
         main_graph = self.function_ir.graph.clone()
+        # A model has no attribute parameters: references to the function's attribute
+        # parameters (all of which have defaults, see to_model_proto) are replaced by the defaults.
+        defaults = {attr.name: attr for attr in self.function_ir.attrs}
+        for node in ir.traversal.RecursiveGraphIterator(main_graph):
+            for name, attr in list(node.attributes.items()):
+                if attr.is_ref() and attr.ref_attr_name in defaults:
+                    default = defaults[attr.ref_attr_name]
+                    node.attributes[name] = ir.Attr(name, default.type, default.value)
         # Determine opset imports
         opset_imports = main_graph.opset_imports.copy()
 
